@@ -339,3 +339,131 @@ func ruleR36(c *Ctx) *RuleResult {
 	}
 	return r
 }
+
+// ---- R37 SEPARATOR: B-tree borrow/merge address the separator between the node and the sibling they work with ----
+
+func ruleR37(c *Ctx) *RuleResult {
+	p := c.p
+	r := &RuleResult{Rule: "R37", Title: "SEPARATOR: a B-tree borrow/merge uses the parent entry between the node and that sibling, the sibling's adjacent end entry, and removes what it moved", Floor: 1}
+	clause := "in rebalance, a path that works with the left sibling (child i-1) addresses only parent entry i-1 = the index leftSibling returned, takes the sibling's last entry and deletes that one; with the right sibling (child i+1) only parent entry i = rightSibling's index - 1, the sibling's first entry; a merge deletes that same parent entry"
+	ct := typeByKey(p, "trees/btree.Tree")
+	if ct == nil {
+		return r
+	}
+	fn := methodsOf(p, ct)["rebalance"]
+	key := "trees/btree.Tree.rebalance"
+	if fn == nil {
+		r.undecided(key, clause, "-", "anchored function not found")
+		return r
+	}
+	gc := c.GCTail(fn)
+	if gc.Undecided != "" {
+		r.undecided(key, clause, p.FuncPos(fn), gc.Undecided)
+		return r
+	}
+	var bad []string
+	narms := 0
+	for _, g := range gc.GCs {
+		// which sibling do the effects work with?
+		var sib, sibIdx *Term
+		side := ""
+		for _, ef := range g.Effects {
+			ef.any(func(t *Term) bool {
+				if t.Op == "ext" && t.Leaf == "0" && len(t.Args) == 1 && t.Args[0].Op == "call" {
+					switch {
+					case strings.HasSuffix(t.Args[0].Leaf, ").leftSibling"):
+						if side == "right" {
+							side = "both"
+						} else if side == "" {
+							side, sib, sibIdx = "left", t, nodeL("ext", "1", t.Args[0])
+						}
+					case strings.HasSuffix(t.Args[0].Leaf, ").rightSibling"):
+						if side == "left" {
+							side = "both"
+						} else if side == "" {
+							side, sib, sibIdx = "right", t, nodeL("ext", "1", t.Args[0])
+						}
+					}
+				}
+				return false
+			})
+		}
+		if side == "" {
+			// merges reach the sibling through parent.Children[index]: classify by the index term in the effects
+			for _, ef := range g.Effects {
+				ef.any(func(t *Term) bool {
+					if t.Op == "ext" && t.Leaf == "1" && len(t.Args) == 1 && t.Args[0].Op == "call" && side == "" {
+						if strings.HasSuffix(t.Args[0].Leaf, ").leftSibling") {
+							side, sibIdx = "left", t
+						} else if strings.HasSuffix(t.Args[0].Leaf, ").rightSibling") {
+							side, sibIdx = "right", t
+						}
+					}
+					return false
+				})
+			}
+		}
+		if side == "" {
+			continue
+		}
+		if side == "both" {
+			bad = append(bad, "a path works with both siblings at once: "+trunc(guardsString(g), 200))
+			continue
+		}
+		narms++
+		wantSep := linOf(stripEpochs(sibIdx))
+		wantEnd := ""
+		if side == "right" {
+			wantSep = wantSep.add(linConst(1), -1)
+		}
+		parentEntries := "(load (fa:Entries (load (fa:Parent p:1))))"
+		var sibEntries string
+		if sib != nil {
+			sibEntries = "(load (fa:Entries " + noEpoch(sib) + "))"
+			if side == "left" {
+				wantEnd = linAtom("(len " + sibEntries + ")").add(linConst(1), -1).String()
+			} else {
+				wantEnd = "0"
+			}
+		}
+		chk := func(t *Term) bool {
+			if t.Op == "ia" && len(t.Args) == 2 {
+				base := noEpoch(t.Args[0])
+				idx := linOf(stripEpochs(t.Args[1])).String()
+				if base == parentEntries && idx != wantSep.String() {
+					bad = append(bad, fmt.Sprintf("working with the %s sibling, the path addresses parent entry %s instead of %s (the separator between the node and that sibling)", side, idx, wantSep.String()))
+				}
+				if sibEntries != "" && base == sibEntries && idx != wantEnd {
+					bad = append(bad, fmt.Sprintf("the %s sibling gives up entry %s instead of its adjacent end entry %s", side, idx, wantEnd))
+				}
+			}
+			return false
+		}
+		for _, ef := range g.Effects {
+			ef.any(chk)
+			if nm, args, ok := effDo(ef); ok && nm == "deleteEntry" && len(args) == 3 {
+				who := noEpoch(args[1])
+				idx := linOf(stripEpochs(args[2])).String()
+				switch {
+				case who == "(load (fa:Parent p:1))":
+					if idx != wantSep.String() {
+						bad = append(bad, fmt.Sprintf("the merge with the %s sibling deletes parent entry %s instead of the separator %s", side, idx, wantSep.String()))
+					}
+				case sib != nil && who == noEpoch(sib):
+					if idx != wantEnd {
+						bad = append(bad, fmt.Sprintf("the %s sibling loses entry %s instead of the end entry %s it gave up", side, idx, wantEnd))
+					}
+				}
+			}
+		}
+	}
+	if narms < 4 {
+		bad = append(bad, fmt.Sprintf("expected borrow-left, borrow-right, merge-left and merge-right paths, found %d sibling path(s)", narms))
+	}
+	if len(bad) > 0 {
+		r.bad(key, clause, p.FuncPos(fn), strings.Join(dedup(bad), "\n"))
+	} else {
+		r.ok(key, clause, p.FuncPos(fn), fmt.Sprintf("%d sibling paths: separator and end-entry indices consistent", narms))
+	}
+	return r
+}
